@@ -1,7 +1,7 @@
 (* Dispatch.v -- single entry point of the executable model: opcode * argument -> result.
    Used identically by the extracted OCaml driver and by in-Coq vm_compute samples. *)
 From Coq Require Import List ZArith.
-From Yv Require Import Base.Sx Run.RunSym Run.RunGeom Run.RunCache Run.RunTrunc Run.RunStruct Run.RunBlock Run.RunFermi Run.RunFusion Run.RunSerial.
+From Yv Require Import Base.Sx Run.RunSym Run.RunGeom Run.RunCache Run.RunTrunc Run.RunStruct Run.RunBlock Run.RunFermi Run.RunFusion Run.RunSerial Run.RunLinalg.
 Import ListNotations.
 Open Scope Z_scope.
 
@@ -26,6 +26,8 @@ Definition run (op : Z) (arg : sx) : sx :=
   | 70 => run_fused_leg arg
   | 71 => run_fused_leg_of arg
   | 80 => run_split_combine arg
+  | 90 => run_t_con arg
+  | 91 => run_t_con_qr arg
   | _ => sErr 999
   end.
 
